@@ -35,6 +35,7 @@ fn shape_strategy() -> impl Strategy<Value = Shape> {
         3 => (1u8..=12).prop_map(Shape::Dups),
         2 => (1u8..=8).prop_map(Shape::Clustered),
         2 => (1u16..=600).prop_map(Shape::LogUniform),
+        1 => Just(Shape::Extreme),
     ]
 }
 
